@@ -307,6 +307,7 @@ def chunk(w, mode, k=0):
 class C11(Suite):
     id = "C11"
     props_module = "Cpppo.Props.C11"
+    extra_modules = ["Cpppo.Proofs.Regex", "Cpppo.Proofs.Rx"]
     rule = ("all expression trees up to a size bound over {a,b} (literals, classes, negated classes, '.', "
             "'|', grouping, '*', '+', '?', '{m,n}') x all strings over {a,b} up to a length bound, each also "
             "with an unnamed follower symbol; kind (regex/regex_bytes/string/string_bytes), greedy flag, own "
@@ -336,6 +337,7 @@ class C11(Suite):
 
     def __init__(self):
         self.fsm_cache = {}
+        self.bug_cache = {}
         self.alpha_cache = {}
         self.nfa_cache = {}
         self.machines = {}
@@ -357,7 +359,41 @@ class C11(Suite):
             case["probe"] = 1
         return case
 
+    def greenery_multiplier_bug(self, tree):
+        """greenery 2.x reduces `(x{p,}){0,n}` (p >= 2; also `?`, `*`) to `x*`: its bound arithmetic has
+        inf * 0 = inf, so `multiplier.canmultiplyby` wrongly allows the merge (e.g. `(aa+)?` becomes `a*`).
+        True iff the expression contains a repetition with minimum 0 applied to something greenery reduces
+        to a single `x{p,}` with p >= 2 -- exactly the shape that triggers it."""
+        key = json.dumps(tree)
+        r = self.bug_cache.get(key)
+        if r is None:
+            import greenery.lego
+            r = False
+            k = tree[0]
+            if k in ("opt", "star") or (k == "rep" and tree[1] == 0):
+                p = greenery.lego.parse(rx_str(tree[-1]))
+                if isinstance(p, greenery.lego.mult) and p.multiplier.max == greenery.lego.inf \
+                        and p.multiplier.min.v is not None and p.multiplier.min.v >= 2:
+                    r = True
+            if not r:
+                r = any(self.greenery_multiplier_bug(x) for x in tree[1:]
+                        if isinstance(x, list) and x and isinstance(x[0], str))
+            self.bug_cache[key] = r
+        return r
+
     def cases(self, tier, rng):
+        """Expressions in the known greenery defect class are outside the hypothesis `hL` of
+        regex_machine_correct (the fsm is not the expression's): their runs are compared with the model
+        only, their lang/spec cases are dropped (two listed probes keep the finding visible)."""
+        for c in self.raw_cases(tier, rng):
+            if "rx" in c and not c.get("probe") and self.greenery_multiplier_bug(c["rx"]):
+                if c["op"] != "run":
+                    continue
+                c["corr_only"] = 1
+                c["gbug"] = 1
+            yield c
+
+    def raw_cases(self, tier, rng):
         quick = tier == "quick"
         k = 0
         # ---- 1. exhaustive small scope over {a,b}
@@ -468,6 +504,15 @@ class C11(Suite):
                 w = [b for c in text for b in utf8(c)]
                 out.append({"op": "run", "kind": kind, "rx": tree, "w": w, "chunks": "whole", "k": 0,
                             "term": 1, "greedy": 1, "text": 1, "t": text, "decode": 0, "probe": 1})
+        # the greenery defect: `(aa+)?` and `((a+){2,2})*` are turned into `a*`
+        for tree in (["opt", ["cat", ["lit", A], ["plus", ["lit", A]]]],
+                     ["star", ["rep", 2, 2, ["plus", ["lit", A]]]]):
+            out.append({"op": "lang", "rx": tree, "bound": 4, "probe": 1})
+            for kind in ("regex", "regex_bytes"):
+                out.append({"op": "run", "kind": kind, "rx": tree, "w": [A], "chunks": "whole", "k": 0,
+                            "term": 1, "greedy": 1, "probe": 1})
+                out.append({"op": "run", "kind": kind, "rx": tree, "w": [A, A, B], "chunks": "whole", "k": 0,
+                            "term": 1, "greedy": 1, "probe": 1})
         return out
 
     def random_tree(self, rng, size, alpha):
@@ -653,8 +698,27 @@ class C11(Suite):
             _, _, mach, _ = cpppo.state_input.from_regex(s, alphabet=cpppo.type_str_iter, encoder=None,
                                                          typecode=cpppo.type_str_array_symbol, context=None)
             import greenery.lego
-            same = (mach.map == greenery.lego.parse(s).fsm().map)
-            return "ok" if same else "fsm-differs"
+            ref = greenery.lego.parse(s).fsm()
+            if mach.map != ref.map or mach.initial != ref.initial or mach.finals != ref.finals:
+                return "fsm-differs"
+            # the fsm the machine is built from against the expression (the oracle's matcher), on all strings
+            # up to the bound over the named symbols plus one unnamed: shortest, then least, difference
+            named = sorted({ord(x) for x in mach.alphabet if x is not None} | rx_syms(c["rx"]))
+            sig = named + [max(named + [0]) + 1]
+            nfa = self.nfa(c["rx"])
+            for n in range(c["bound"] + 1):
+                for w in itertools.product(sorted(sig), repeat=n):
+                    q = mach.initial
+                    for sym in w:
+                        tab = mach.map[q]
+                        ch = chr(sym)
+                        q = tab[ch] if ch in tab else tab[None]
+                    S = nfa.init
+                    for sym in w:
+                        S = nfa.step(S, sym)
+                    if (q in mach.finals) != (nfa.accept in S):
+                        return "diff:" + ",".join(map(str, w))
+            return "ok"
         if c["op"] == "spec":
             out = self.run_real("regex", rx_str(c["rx"]), [c["w"]] if c["w"] else [])
             o, _t, n, st = out.split(" ")[:4]
@@ -730,7 +794,7 @@ class C11(Suite):
             return None if out == (",".join(str(b) for cp in c["t"] for b in chr(cp).encode("utf-8", "surrogatepass")) or "-") \
                 else "encoding differs"
         if c["op"] == "lang":
-            return None if out == "ok" else out
+            return None if out == "ok" else "greenery's fsm is not the expression's language: " + out
         if c["op"] == "spec":
             n, acc, _ = self.nfa(c["rx"]).spec(c["w"])
             want = "%s %d %s" % ("ok" if acc else "nonterminal", n, ",".join(map(str, c["w"][:n])) or "-")
@@ -779,7 +843,7 @@ class C11(Suite):
         if o in ("ok", "nonterminal") and len(toks) == 4:
             sent = int(toks[2])
             o += ":none" if sent == 0 else (":all" if sent == len(self.effective_input(c)) else ":part")
-        tag = "mb-outside-hypothesis" if c.get("corr_only") else "mb-probe" if c.get("probe") else "mb" if c.get("text") else ("raw" if c["kind"].endswith("bytes") and any(b >= 0x80 for b in c["w"]) else "")
+        tag = "greenery-defect-class" if c.get("gbug") else "mb-outside-hypothesis" if c.get("corr_only") else "mb-probe" if c.get("probe") else "mb" if c.get("text") else ("raw" if c["kind"].endswith("bytes") and any(b >= 0x80 for b in c["w"]) else "")
         return "%s%s/%s/%s" % (c["kind"], ":" + tag if tag else "", c["chunks"], o)
 
     def shrink(self, c):
